@@ -3,10 +3,10 @@
    One iteration, as coded:
        event = self.poll(timeout)            flush: the commands issued since the last poll form one
                                              chunk of the output queue; the tty takes some chunks
+       if self.frames_pending() > TERMINAL_FRAMES_DROP {      (constant regenerated: Gen/C01Const.v)
+           self.frames_drop(); renderer.clear(self)?; }       before the handler draws
        action = handler(self, event, renderer.surface())      the application draws
        if action != WaitNoFrame {
-           if self.frames_pending() > TERMINAL_FRAMES_DROP {  (constant regenerated: Gen/C01Const.v)
-               self.frames_drop(); renderer.clear(self)?; }
            DecModeSet(SynchronizedOutput, on); renderer.frame(self)?; DecModeSet(.., off)
        } else { renderer.surface().clear() }
 
@@ -30,34 +30,39 @@ Record iter := mkiter {
   it_keep : nat }.           (* chunks at the front of the queue that survive frames_drop() *)
 
 (* ---------- the code side: what is issued in each iteration ---------- *)
+Definition is_nil {A} (l : list A) : bool := match l with [] => true | _ => false end.
+
 (* (frames_drop was called, commands issued between this poll and the next) *)
 Fixpoint loop_model (o : oracle) (r : rstate) (npend : nat) (its : list iter) : list (bool * list cmd) :=
   match its with
   | [] => []
   | it :: its' =>
       let npend1 := npend - Nat.min (it_accept it) npend in
-      let r0 := rdraw r (it_draw it) in
+      let fp := match it_pending it with Some n => n | None => npend1 end in
+      let drop := terminal_frames_drop <? fp in
+      let cc := if drop then fst (rclear r) else [] in
+      let r1 := if drop then snd (rclear r) else r in
+      let npend2 := if drop then Nat.min (it_keep it) npend1 else npend1 in
+      let r2 := rdraw r1 (it_draw it) in
       match it_action it with
-      | AWaitNoFrame => (false, []) :: loop_model o (rskip r0) npend1 its'
+      | AWaitNoFrame =>
+          (drop, cc) :: loop_model o (rskip r2) (if is_nil cc then npend2 else S npend2) its'
       | AWait =>
-          let fp := match it_pending it with Some n => n | None => npend1 end in
-          let drop := terminal_frames_drop <? fp in
-          let cc := if drop then fst (rclear r0) else [] in
-          let r1 := if drop then snd (rclear r0) else r0 in
-          let npend2 := if drop then Nat.min (it_keep it) npend1 else npend1 in
-          (drop, cc ++ [CSync true] ++ fst (frame o r1) ++ [CSync false])
-          :: loop_model o (snd (frame o r1)) (S npend2) its'
+          (drop, cc ++ [CSync true] ++ fst (frame o r2) ++ [CSync false])
+          :: loop_model o (snd (frame o r2)) (S npend2) its'
       end
   end.
 
 (* ---------- the terminal side: the property predicate ---------- *)
-(* a pending chunk: its commands and (ghost) the surface the application drew for it *)
-Definition chunk := (list cmd * grid cell)%type.
+(* a pending chunk: its commands and (ghost) the surface the application drew for the frame it
+   contains, if it contains one *)
+Definition chunk := (list cmd * option (grid cell))%type.
 
 (* the terminal executes a chunk; afterwards it must display the surface drawn for that frame *)
 Definition deliver (o : oracle) (h w : nat) (scr : screen) (c : chunk) : screen * bool :=
   let scr' := exec_list o scr (fst c) in
-  (scr', negb (err scr') && same_display scr' (show o h w (snd c))).
+  (scr', negb (err scr')
+         && match snd c with Some s => same_display scr' (show o h w s) | None => true end).
 
 Fixpoint deliver_all (o : oracle) (h w : nat) (scr : screen) (q : list chunk) : screen * bool :=
   match q with
@@ -88,15 +93,16 @@ Fixpoint loop_spec (o : oracle) (h w : nat) (scr : screen) (q : list chunk) (las
       let n := Nat.min (it_accept it) (length q) in
       let '(scr1, ok1) := deliver_all o h w scr (firstn n q) in
       let q1 := skipn n q in
-      match it_action it with
-      | AWaitNoFrame =>
-          let '(ok, st) := loop_spec o h w scr1 q1 last its' out' in
-          (ok1 && negb dropped && (match cs with [] => true | _ => false end) && ok, st)
-      | AWait =>
-          let q2 := if dropped then firstn (it_keep it) q1 else q1 in
-          let st1 := if dropped then stale_after_drop o h w scr1 q2 last else false in
-          let '(ok, st) := loop_spec o h w scr1 (q2 ++ [(cs, it_draw it)]) (it_draw it) its' out' in
-          (ok1 && ok, st1 || st)
-      end
+      let q2 := if dropped then firstn (it_keep it) q1 else q1 in
+      let st1 := if dropped then stale_after_drop o h w scr1 q2 last else false in
+      let last1 := if dropped then gmake h w cell_default else last in
+      let '(ok, st) :=
+        match it_action it with
+        | AWaitNoFrame =>
+            loop_spec o h w scr1 (if is_nil cs then q2 else q2 ++ [(cs, None)]) last1 its' out'
+        | AWait =>
+            loop_spec o h w scr1 (q2 ++ [(cs, Some (it_draw it))]) (it_draw it) its' out'
+        end in
+      (ok1 && ok, st1 || st)
   | _, _ => (false, false)
   end.
